@@ -1,5 +1,6 @@
 import GnoVerif.Base.Kit
 import GnoVerif.Model.C04Eval
+import GnoVerif.Model.C04Known
 /-!
 Driver for C04: parses one MiniGo program per op line (S-expression tokens
 written by harness/minigo), runs the model evaluator and prints the canonical
@@ -148,6 +149,7 @@ partial def exprOf : SExp → P Expr
     | "deref", [a] => do pure (.deref (← exprOf a))
     | "addr", [a] => do pure (.addr (← exprOf a))
     | "new", [t] => do pure (.newE (← tyOf t))
+    | "nil", [t] => do pure (.nilE (← tyOf t))
     | "slit", t :: es => do pure (.structLit (← tyOf t) (← es.mapM exprOf))
     | "alit", t :: n :: es => do pure (.arrLit (← tyOf t) (← natOf n) (← es.mapM exprOf))
     | "sllit", t :: es => do pure (.sliceLit (← tyOf t) (← es.mapM exprOf))
@@ -200,6 +202,7 @@ partial def stmtOf : SExp → P Stmt
     | "dec", [lv] => do pure (.incDec false (← exprOf lv))
     | "expr", [e] => do pure (.exprS (← exprOf e))
     | "print", es => do pure (.print (← es.mapM exprOf))
+    | "delete", [m, k] => do pure (.deleteS (← exprOf m) (← exprOf k))
     | "if", [init, c, th, el] => do
       pure (.ifS (← optStmt init) (← exprOf c) (← stmtsOf th) (← stmtsOf el))
     | "for", [l, init, c, post, body] => do
@@ -272,7 +275,7 @@ def progOf : List SExp → P Program
     let globals ← gs.mapM fun g => match g with
       | .list [.atom x, t, e] => do pure (x, (← tyOf t), (← optExpr e))
       | _ => fail "global"
-    pure { types := types, funcs := funcs.toArray, globals := globals, main := (← natOf mainIdx) }
+    pure { types := types, funcs := funcs.toArray, globals := globals, entry := (← natOf mainIdx) }
   | _ => fail "program shape"
 
 /-! ### canonical outcome line -/
@@ -310,9 +313,18 @@ def runLine (toks : List String) : String :=
       let b := bodyOf out
       if b.isEmpty then statusOf oc else statusOf oc ++ " " ++ b
 
+/-- a pinned known-finding witness: the model must give the recorded Go answer;
+the line is answered with the recorded (observed) GnoVM answer -/
+def runKnown (key : String) (toks : List String) : String :=
+  match Known.recorded key with
+  | none => "err:badop"
+  | some (goAns, gnoAns) =>
+    if runLine toks == goAns then gnoAns else "err:kf-model-drift " ++ runLine toks
+
 def step (_ : Unit) (t : List String) : Unit × String :=
   match t with
   | "prog" :: rest => ((), runLine rest)
+  | "kf" :: key :: "prog" :: rest => ((), runKnown key rest)
   | _ => ((), "err:badop")
 
 end GnoVerif.Drive.C04
